@@ -415,18 +415,39 @@ func runWallet(r *evid.Run, dir string, cs int64) {
 			}
 		}
 	}()
+	// and somebody keeps asking for the key scopes that are in use to be
+	// registered (they exist: every request must be refused and change nothing)
+	var reregs, reregOK int64
+	rwg.Add(1)
+	go func() {
+		defer rwg.Done()
+		for i := 0; i < 20000 && atomic.LoadInt32(&issuersDone) == 0; i++ {
+			sc := scopes[i%2]
+			if _, err := f.W.AddScopeManager(sc, waddrmgr.ScopeAddrMap[sc]); err == nil {
+				atomic.AddInt64(&reregOK, 1)
+			}
+			atomic.AddInt64(&reregs, 1)
+			time.Sleep(200 * time.Microsecond)
+		}
+	}()
 	wg.Wait()
 	atomic.StoreInt32(&issuersDone, 1)
 	rwg.Wait()
 	f.DB.PreCommit = nil
+	r.Hit("concurrent-registrations-of-an-existing-scope", int(atomic.LoadInt64(&reregs)))
 	r.Hit("concurrent-account-renames", int(atomic.LoadInt64(&renames)))
 	r.Hit("concurrent-account-reads", int(atomic.LoadInt64(&reads)))
+	reregAccepted := atomic.LoadInt64(&reregOK)
 	fail := func(key, what string) {
 		ev := events
 		if len(ev) > 260 {
 			ev = ev[:260]
 		}
 		r.Violation(key, what, "wallet", cs, map[string]any{"history": ev, "goroutines": G, "calls_each": K, "max_commit_callback_delay_us": maxDelay, "what": what})
+	}
+	if reregAccepted > 0 {
+		fail("c09:existing-scope-registered-again", fmt.Sprintf("%d requests to register a key scope that exists (and is issuing addresses) were accepted", reregAccepted))
+		return
 	}
 	// addresses outside the oracle's table
 	for _, o := range ops {
